@@ -21,7 +21,7 @@ TRUSTED_BASE = [
     "translators (harness/translators.py with pytolean, pydriver, pystop, pysmbo, pyinit, pymem, pycore, pyconv, pygrid, pylocal, pypop, pypattern): eighteen generators "
     "regenerate Lean definitions from /repo's source on every run - tracker core, driver step methods, stop object + no_change + progress bar, "
     "SMBO bookkeeping and selection, Initializer, Memory / ResultsManager wrappers and finish_search, CoreOptimizer position kernels, Converter, "
-    "grid machines, set_random_seed, split / sort_pop_best_score, iterate of the local optimizers, iterate / init_pos / evaluate of ParallelTempering / ParticleSwarm / Spiral / EvolutionStrategy / DifferentialEvolution, PatternSearch's iterate / finish_initialization / evaluate, GA parent selection, DIRECT selection, facade table, entropy census - and what they generate is PROVED equal to the "
+    "grid machines, set_random_seed, split / sort_pop_best_score, iterate of the local optimizers, iterate / init_pos / evaluate of ParallelTempering / ParticleSwarm / Spiral / EvolutionStrategy / DifferentialEvolution / GeneticAlgorithm, PatternSearch's iterate / finish_initialization / evaluate, GA parent selection, DIRECT selection, facade table, entropy census - and what they generate is PROVED equal to the "
     "hand-written model (GFO/Gen/*Check.lean); trusted: the mapping tables from Python statement / expression forms to Lean terms (attribute -> model "
     "field, comparison -> IEEE comparison on F, truthiness, `int(a / b)` and `//` of naturals -> `/`, generator / constraint call -> tape read) and the "
     "numpy lines that are pinned verbatim and stand for a model function (clip-cast, mesh, fancy indexing, masks)",
